@@ -343,6 +343,8 @@ fn compiled_seed_sources() -> Vec<(String, Kind, Game, String, bool)> {
     v.push(("c-mission-th095".into(), Kind::Mission, g("th095"), MISSION_095.to_string(), true));
     v.push(("c-mission-th125".into(), Kind::Mission, g("th125"), MISSION_125.to_string(), true));
     for gm in ["th06", "th07", "th08", "th095"] { v.push((format!("c-ecl-{gm}"), Kind::Ecl, g(gm), ecl_src(g(gm)), true)); }
+    // minimal old-format ECL files without any timeline (TH07+: the timeline table then holds only the end-of-file entry)
+    for gm in ["th07", "th08", "th095"] { v.push((format!("c-ecl-{gm}-min"), Kind::Ecl, g(gm), "void sub0() {\n    ins_0();\n}\n".to_string(), false)); }
     v.push(("c-ecl-th10".into(), Kind::Ecl, g("th10"), ECL10_SRC.to_string(), false));
     v
 }
@@ -594,6 +596,8 @@ struct Case {
     /// interned fault class
     class: u32,
     runs: u8,
+    /// this byte string was not scheduled before (a new state)
+    fresh: bool,
 }
 
 struct Interner { names: Vec<String>, map: HashMap<String, u32> }
@@ -657,7 +661,7 @@ impl<'a> Gen<'a> {
         if todo == 0 { self.duplicates += 1; return; }
         st.done.insert(h, prev.unwrap_or(0) | todo);
         let class = self.classes.id(class);
-        out.push(Case { id: self.next_id, seed, ops, class, runs: todo });
+        out.push(Case { id: self.next_id, seed, ops, class, runs: todo, fresh: prev.is_none() });
         self.next_id += 1;
     }
 
@@ -710,6 +714,22 @@ impl<'a> Gen<'a> {
                     self.add(&mut out, seed, vec![Op::Fill { off: f.off + first_nul, len: f.width - first_nul, byte: 0xFF }], &cls, all);
                 }
                 self.add(&mut out, seed, vec![Op::Set { off: f.off + f.width - 1, width: 1, val: 0x41 }], &cls, all);
+            }
+        }
+        // whole tables: every maximal run of adjacent same-named fields (offset tables, id tables, argument lists) zeroed / all ones
+        {
+            let mut sorted: Vec<&Field> = fields.iter().collect();
+            sorted.sort_by_key(|f| f.off);
+            let mut i = 0;
+            while i < sorted.len() {
+                let mut j = i;
+                while j + 1 < sorted.len() && sorted[j + 1].name == sorted[i].name && sorted[j + 1].off == sorted[j].off + sorted[j].width { j += 1; }
+                if j > i {
+                    let (off, len) = (sorted[i].off, sorted[j].off + sorted[j].width - sorted[i].off);
+                    let cls = format!("table:{}", sorted[i].name);
+                    for byte in [0x00u8, 0xFF] { self.add(&mut out, seed, vec![Op::Fill { off, len, byte }], &cls, all); }
+                }
+                i = j + 1;
             }
         }
         // every offset x {00, 01, 7F, 80, FF, b^01, b^80}
@@ -1226,6 +1246,7 @@ impl Pool {
 struct Viol { count: u64, first_id: u64, detail: Value }
 
 struct Agg {
+    states: u64,
     evaluations: u64,
     transitions: u64,
     nontrivial: u64,
@@ -1259,7 +1280,7 @@ fn witness(seeds: &[Seed], c: &Case, class: &str, run: &str, kind: &str, extra: 
 
 impl Agg {
     fn new(nseeds: usize) -> Agg {
-        Agg { evaluations: 0, transitions: 0, nontrivial: 0, outcomes: BTreeMap::new(), viols: BTreeMap::new(), seed_class: vec![BTreeMap::new(); nseeds],
+        Agg { states: 0, evaluations: 0, transitions: 0, nontrivial: 0, outcomes: BTreeMap::new(), viols: BTreeMap::new(), seed_class: vec![BTreeMap::new(); nseeds],
               slow_unconfirmed: 0, broken: 0, max_ms: 0, panic_sites: BTreeMap::new(), slowest: vec![], resource_kinds: BTreeMap::new() }
     }
     fn violation(&mut self, sig: String, id: u64, detail: impl FnOnce() -> Value) {
@@ -1317,6 +1338,7 @@ pub fn run(tier: &str) -> Report {
             let fmt = seed.fmt();
             let class = gen.classes.name(c.class).to_string();
             agg.transitions += 1;
+            if c.fresh { agg.states += 1; }
             let mut default_class: Option<String> = None;
             match r {
                 CaseResult::Done { runs, hwm_mb, slow_confirmed } => {
@@ -1400,7 +1422,7 @@ pub fn run(tier: &str) -> Report {
         let mut cases = vec![];
         for &i in &order { cases.extend(gen.primary(i, false)); }
         if dump { eprintln!("phase A: {} cases", cases.len()); }
-        if run_cases(&gen, &mut agg, &mut rep, &cases, "primary") { phases_done.push("A: every seed x {truncation@every offset, field values, string faults, every offset x 7 byte values}; all option sets on truncations/field faults".into()); }
+        if run_cases(&gen, &mut agg, &mut rep, &cases, "primary") { phases_done.push("A: every seed x {truncation@every offset, 13 field values per field, string faults, whole-table fills, every offset x 7 byte values}; all option sets on truncations/field/table faults".into()); }
         else { cut = Some("wall cap during phase A (primary faults)".into()); }
     }
 
@@ -1441,7 +1463,8 @@ pub fn run(tier: &str) -> Report {
     for e in pool.machinery.lock().unwrap().iter() { rep.machinery_errors.push(e.clone()); }
     rep.evaluations = agg.evaluations;
     rep.transitions = agg.transitions;
-    rep.states = gen.distinct;
+    rep.states = agg.states; // distinct faulted byte strings actually executed (generated: gen.distinct)
+    rep.extra.insert("distinct_inputs_generated".into(), json!(gen.distinct));
     rep.nontrivial = agg.nontrivial;
     rep.traces_validated = 0;
     for (k, n) in &agg.outcomes { rep.outcome_n(k, *n); }
@@ -1493,7 +1516,7 @@ pub fn replay(detail: &Value) -> i32 {
     let mut runs: u8 = 0;
     for l in detail["run"].as_str().unwrap_or("default").split(',') { if l == "all" { runs |= seeds[si].all_runs(); } else if let Some(b) = run_bit_of(l) { runs |= b; } }
     if runs == 0 { runs = RUN_DEFAULT; }
-    let c = Case { id: 0, seed: si, ops, class: 0, runs };
+    let c = Case { id: 0, seed: si, ops, class: 0, runs, fresh: true };
     let bytes = apply_fault(&seeds[si].bytes, &c.ops);
     println!("replay C16: seed {} ({} {}, {} bytes), fault {}, runs {:?}, input {} bytes", name, seeds[si].fmt(), seeds[si].game.as_str(), seeds[si].bytes.len(), fault, detail["run"], bytes.len());
     if bytes.len() <= 768 { println!("  input hex: {}", hex(&bytes)); }
